@@ -74,8 +74,13 @@ Definition rest_same (a b : inst) : bool :=
     step if it was a cancel command: its filter and the requests it managed to send *)
 Record cview := mkCView { cv_insts : list inst; cv_trading : bool; cv_prev : option (ifilter * list creq) }.
 
-Definition the_command (st : step) : option command :=
-  match st_op st with OpProcess (EvCommand c) => Some c | OpAction c => Some c | _ => None end.
+Definition the_command (trading_before : bool) (st : step) : option command :=
+  match st_op st with
+  | OpProcess (EvCommand c) => Some c
+  | OpAction c => Some c
+  | OpHook h c => if hook_fires h trading_before then Some c else None   (* a strategy hook calling the trait method *)
+  | _ => None
+  end.
 Definition the_report (st : step) : option action_out :=
   match ob_res (st_obs st) with
   | RAudit a => match au_outputs a with OutCommanded x :: _ => Some x | _ => None end
@@ -98,7 +103,7 @@ Definition untouched_ok (f : ifilter) (before after : list inst) : bool :=
 Definition oracle_step (v : cview) (st : step) : bool * cview :=
   let after := obs_insts (cv_insts v) (ob_insts (st_obs st)) in
   let next prev := mkCView after (ob_trading (st_obs st)) prev in
-  match the_command st with
+  match the_command (cv_trading v) st with
   | Some (CCancelOrders f) =>
       match the_report st with
       | Some (AOCancel out) =>
